@@ -19,10 +19,12 @@ func GetBuffer(w io.Writer) (b *Buffer, existing bool) {
 	}
 	b, ok := w.(*Buffer)
 	if ok {
+		verifPool("existing", b, nil)
 		return b, true
 	}
 	b = bufferPool.Get().(*Buffer)
 	b.Reset(w)
+	verifPool("acquire", b, nil)
 	return b, false
 }
 
@@ -33,6 +35,8 @@ func ReleaseBuffer(w io.Writer) (err error) {
 		return nil
 	}
 	err = b.Flush()
+	verifPool("flush", b, err)
+	verifPool("release", b, nil)
 	bufferPool.Put(b)
 	return err
 }
